@@ -338,7 +338,7 @@ class RGen:
                 np.array([0.1, 0.2, 0.3], dtype=np.float32), np.array(1.5, dtype=np.float32), np.array([1.0, 2.0, 3.0], dtype=np.float32)]
         for i in range(2 + t.pick(5)):
             arr = base[t.pick(len(base))]  # few distinct payloads -> duplicate initializers are common
-            name = ["w", "w_1", f"w{i}", f"val_{i}"][t.pick(4)]
+            name = ["w", "w_1", f"w{i}", f"val_w{i}"][t.pick(4)]
             if any(name == x.name for x in inits):
                 name = f"w{i}_{self.n}"
             inits.append(nph.from_array(arr, name=name))
